@@ -261,16 +261,24 @@ func (s *zzStore) WaitForVersionChange(ctx context.Context, key, ver string) err
 		}
 		ch := s.changed
 		var expC <-chan time.Time
+		var tm *time.Timer
 		if vParam("CLOCK") == 1 && (s.guard != s.ver || s.ownerDead || s.noGuard) {
 			// an unguarded record lapses by itself: wake up when it does
-			expC = time.NewTimer(s.exp.Sub(time.Now()) + 1).C
+			tm = time.NewTimer(s.exp.Sub(time.Now()) + 1)
+			expC = tm.C
 		}
 		s.mu.Unlock()
 		select {
 		case <-ch:
 		case <-expC:
 		case <-ctx.Done():
+			if tm != nil {
+				tm.Stop()
+			}
 			return ctx.Err()
+		}
+		if tm != nil {
+			tm.Stop()
 		}
 	}
 }
@@ -364,7 +372,7 @@ func zzNewWorld(nProv, nLock, maxFaults int) *zzWorld {
 		if vParam("CLOCK") == 1 {
 			if vParam("TTLSET") == 1 {
 				// a few concrete lease periods (even, odd, large): all clock arithmetic folds to constants
-				p.leaseTTL = time.Duration([]int64{1000, 1001, 1 << 30}[vChoose("leaseTTL", 3)])
+				p.leaseTTL = time.Duration([]int64{1001, 1000, 1 << 30}[vChoose("leaseTTL", vParam("TTLN"))])
 			} else {
 				ttl := vInt64("leaseTTL")
 				vAssume(ttl >= int64(vParam("TTLMIN")) && ttl <= 1<<40)
@@ -622,7 +630,10 @@ func zzC05Kept() {
 	w.acq = make([]int, 2)
 	w.st.noGuard = true // expiry is real here: nothing is assumed about renewals
 	R := vParam("R")
-	k := vChoose("failAt", R+1) // 0 = no failing renewal
+	k := 0 // 0 = no failing renewal
+	if vParam("FAILMAX") > 0 {
+		k = vChoose("failAt", vParam("FAILMAX")+1)
+	}
 	w.st.renewFailAt = k
 	hl, cl := w.lockers[0], w.lockers[1]
 	hl.Lock()
@@ -649,6 +660,20 @@ func zzC05Kept() {
 	w.release(hl)
 	<-contDone
 	vReach("handed-over")
+	if vParam("THIRD") == 1 {
+		// the second tenure (whose caller had been waiting for R renewal periods) must be kept alive like any other:
+		// its first renewal is applied (else: deadlock) and a third caller probing then does not get the lock
+		before := w.st.casApplied
+		for w.st.casApplied == before {
+			<-w.st.progress
+		}
+		tl := w.provs[0].NewLocker("L").(*kvsLock)
+		w.nextCtx++
+		got := tl.TryLock(zzNewCtx(w.nextCtx))
+		vAssert(!got, "a third caller acquired the lock while the second tenure holds it")
+		w.release(cl)
+		vReach("third-done")
+	}
 }
 
 // part 2: the holder dies (its timers are dropped, it never unlocks) at any phase: the waiting contender
@@ -676,6 +701,7 @@ func zzC05Death() {
 		<-w.st.progress
 	}
 	zzTimersDead = true
+	deathAt := time.Now()
 	w.holders-- // a dead holder no longer counts
 	w.st.mu.Lock()
 	lastExp := w.st.exp
@@ -684,6 +710,7 @@ func zzC05Death() {
 	vReach("took-over")
 	vAssert(!acqAt.Before(lastExp), "the contender acquired before the dead holder's lease ran out")
 	vAssert(acqAt.Sub(lastExp) <= 64, "the contender acquired much later than one lease period after the holder died")
+	vAssert(acqAt.Sub(deathAt) <= w.provs[0].leaseTTL+64, "the record outlived the dead holder by more than one lease period")
 }
 
 // part 3: Unlock racing a renewal in flight, followed by a new tenure of the same Locker
@@ -710,6 +737,9 @@ func zzC05UnlockRace() {
 		// a straggler of the first tenure neither cancelled nor replaced the new tenure's timer, nor renewed its record
 		cur := l.future.Load().(*zzFuture)
 		vAssert(cur == newFut || w.st.casApplied > appliedAtUnlock, "the new tenure's timer was replaced although no renewal of the new tenure happened")
+		if cur == newFut && zzTimersArmed <= vParam("TIMERS") {
+			vAssert(cur.armed, "a straggler of the previous tenure cancelled the new tenure's renewal timer")
+		}
 		vAssert(w.st.present, "the new tenure's record disappeared")
 		w.release(l)
 		vReach("second-tenure")
